@@ -198,6 +198,8 @@ def generate(seed: int, run: int, tier: str) -> dict:
         ops.append({"op": "import", "m": m})
         if rng.random() < 0.15:
             ops.append({"op": "call", "m": m})
+        if rng.random() < 0.1:
+            ops.append({"op": "print", "m": m})
     if style == "deps_then_jump":
         t = targets[0]
         for d in closure_deps(t):
@@ -253,6 +255,9 @@ def _whole_catalogue_job(seed, tag, env, order_seed, n_observe, tests=False) -> 
     else:
         rng.shuffle(mods)
     ops = [{"op": "import", "m": m} for m in mods]
+    if order_seed == -1:
+        # in this job every published equation is also printed (code, latex, pretty) before the observations
+        ops += [{"op": "print", "m": m} for m in mods]
     watch = mods if n_observe is None else sorted(rng.sample(mods, n_observe))
     ops += [{"op": "observe", "m": m, "tests": tests} for m in watch]
     return _job(seed, tag, env, ops, timeout=1500)
@@ -362,6 +367,7 @@ def child_run(job: dict) -> dict:
     first_import_counter = {}
     perturbed_before = set()
     steps = 0
+    flag_events: dict = {}
     prepared: dict = {}
     before_mods = set(sys.modules)
     for step, op in enumerate(job["ops"]):
@@ -418,6 +424,32 @@ def child_run(job: dict) -> dict:
                 if op.get("jitter", 1.0) != 1.0:
                     faults["call_nearby_args"] = faults.get("call_nearby_args", 0) + 1
                 outcome = core.digest(res)[:12]
+        elif kind == "print":
+            # library use: the equations of an (imported) module are printed with the three printers;
+            # a printer may legitimately raise for shapes it does not support, the caller catches it
+            mod, _err = observe.try_import(op["m"])
+            if mod is not None:
+                import sympy as sp  # pylint: disable=import-outside-toplevel
+                from symplyphysics import print_expression  # pylint: disable=import-outside-toplevel
+                from symplyphysics.docs.printer_code import code_str  # pylint: disable=import-outside-toplevel
+                from symplyphysics.docs.printer_latex import latex_str  # pylint: disable=import-outside-toplevel
+                raised = 0
+                for attr in sorted(vars(mod)):
+                    v_ = vars(mod)[attr]
+                    if attr.startswith("_") or not isinstance(v_, sp.core.relational.Relational):
+                        continue
+                    for pr in (code_str, latex_str, print_expression):
+                        try:
+                            pr(v_)
+                        except Exception:  # pylint: disable=broad-except
+                            raised += 1
+                faults["printed_before"] = faults.get("printed_before", 0) + 1
+                if raised:
+                    faults["printer_raised"] = faults.get("printer_raised", 0) + raised
+                outcome = str(raised)
+                if not global_parameters.evaluate and "print" not in flag_events:
+                    # whatever is imported or computed next would be built unevaluated
+                    flag_events["print"] = f"global_parameters.evaluate is False right after printing the equations of {op['m']} ({raised} printer call(s) raised and were caught)"
         elif kind == "prepare_args":
             mod, _err = observe.try_import(op["m"])
             if mod is not None:
@@ -461,6 +493,7 @@ def child_run(job: dict) -> dict:
         "states": states,
         "nontrivial": fired > 0 and bool(obs),
         "flag_default": flag_ok,
+        "flag_events": flag_events,
         "inconclusive": [],
         "counters_end": {p: ids.get(p, 0) for p in PREFIXES},
     }
@@ -648,6 +681,8 @@ def judge(job: dict, res: dict, ctx) -> list[dict]:
         if ctx is not None:
             ctx["suspects"].update(sus)
             ctx["inc"] += len(inc)
+    for kind_, detail_ in (r.get("flag_events") or {}).items():
+        out.append({"oracle": "flag", "subject": f"evaluate-after-{kind_}", "detail": detail_, "cls": f"C03|flag|evaluate-after-{kind_}"})
     if not r.get("flag_default", True):
         out.append({"oracle": "flag", "subject": "evaluate", "detail": "global_parameters.evaluate is not default after the history", "cls": "C03|flag|evaluate"})
     return out
